@@ -125,7 +125,10 @@ Value& MemberINSERTExpression::value(Context& ctx) const
       case Type::INTEGER:
         if (a1_type == Type::NUMERIC)
         {
-          rv->insert(rv->begin() + p, Value(Integer(*a1.numeric())));
+          if (a1.isNull())
+            rv->insert(rv->begin() + p, Value(Value::type_integer));
+          else
+            rv->insert(rv->begin() + p, Value(Integer(*a1.numeric())));
           return val;
         }
         else if (a1.type() == Type::NO_TYPE)
@@ -137,7 +140,10 @@ Value& MemberINSERTExpression::value(Context& ctx) const
       case Type::NUMERIC:
         if (a1_type == Type::INTEGER)
         {
-          rv->insert(rv->begin() + p, Value(Numeric(*a1.integer())));
+          if (a1.isNull())
+            rv->insert(rv->begin() + p, Value(Value::type_numeric));
+          else
+            rv->insert(rv->begin() + p, Value(Numeric(*a1.integer())));
           return val;
         }
         else if (a1.type() == Type::NO_TYPE)
